@@ -1,12 +1,148 @@
-(* C09 — placeholder while the general proofs are being finished (refutations only) *)
+(* C09 — Every layer sees exactly the alive features of the tensor that reaches it.
+   Statements only (model: Model/Calc.v, proofs: Proofs/Calc.v).  A network is ANY list of nodes of the IR
+   (input, full / depthwise conv or linear — searchable or fixed/excluded —, BatchNorm, propagating op,
+   flatten/squeeze with multiplier, add/sub/time-cat, features-cat of any number of operands) that passes the
+   boolean `wf` (sources point backwards, widths agree at sums and depthwise layers); the theorems hold for
+   every such network (unbounded depth, width, fan-out) and every mask assignment `ms` (layer -> mask of its
+   masker) that satisfies `sound_b`:
+     sound_b nt ms  :=  a searchable depthwise layer's mask equals the alive set of its input, both operands
+                        of a sum / time-cat have the same alive set, a fixed (excluded) module only sees fully
+                        alive tensors.
+   `true` as first argument of the model functions selects the repaired code, `false` the pinned upstream one.
+
+   PARTIAL (what is missing for the full statement): the full property would say
+       forall nt ms, wf nt = true -> consistent_b true nt ms = true -> <conclusions>
+   i.e. for every mask assignment the repaired build_shared_features_map can produce (same masker -> same
+   mask, frozen -> all ones).  Proved here: the conclusions from `sound_b` (C09_calc_sound,
+   C09_in_features_export, C09_export_shape_consistent — all unbounded), and the structural half of the link
+   (C09_join_same_component, C09_through_same_component, C09_shared_groups_equal_masks: the operands of every
+   sum, and a depthwise layer and its input, lie in one component and therefore get ONE masker).  Not proved in
+   general: `consistent_b true nt ms = true -> sound_b nt ms = true` (that frozen-ness as computed by the
+   closure of `pinned` suffices); it is evaluated by vm_compute on every generated case by the check
+   (run_masks returns sound_b and consistent_b) and on the witness networks below; the `_refuted` theorems show
+   that it fails for the upstream sharing (fixd = false). *)
 From Coq Require Import List Bool Arith.
 Import ListNotations.
 Require Import Plinio.Model.Calc Plinio.Proofs.Calc.
 
+(* the implementation's calculators (evaluated through the buffers they register) give exactly the alive
+   features of the tensor feeding each converted layer, and their number *)
+Theorem C09_calc_sound : forall nt ms, wf nt = true -> sound_b nt ms = true ->
+  forall i, i < length nt -> consumer nt i = true ->
+    smask (register_all true nt) ms (input_calc true nt i) = nth (src1 (node_at nt i)) (alive nt ms) [] /\
+    sfeat (register_all true nt) ms (input_calc true nt i) = count (nth (src1 (node_at nt i)) (alive nt ms) []).
+Proof. exact calc_sound_fixed. Qed.
+
+(* registration never lets two calculators share a buffer (prefix-based names are pairwise distinct) *)
+Theorem C09_names_ok : forall nt, wf nt = true -> names_ok true nt = true.
+Proof. exact names_ok_fixed. Qed.
+
+(* the calculators themselves (constants read from the term) are sound, independently of registration *)
+Theorem C09_calc_ideal_sound : forall nt ms, wf nt = true -> sound_b nt ms = true ->
+  forall i, i < length nt ->
+    cmask ms (nth (nth i (setters nt) 0) (calcs true nt) (CConst 0 0)) = nth i (alive nt ms) [].
+Proof. exact calc_ideal_sound. Qed.
+
+(* exported in_channels / in_features / num_features = number of alive input features *)
+Theorem C09_in_features_export : forall nt ms, wf nt = true -> sound_b nt ms = true ->
+  forall i, i < length nt -> consumer nt i = true ->
+    export_in true nt ms i = count (nth (src1 (node_at nt i)) (alive nt ms) []).
+Proof. intros nt ms H1 H2. exact (in_features_export nt ms H1 H2 (names_ok_fixed nt H1)). Qed.
+
+(* the width of every tensor of the exported network is its number of alive features ... *)
+Theorem C09_exported_width_is_alive_count : forall nt ms, wf nt = true -> sound_b nt ms = true ->
+  forall j, j < length nt -> nth j (xwidths nt ms) 0 = count (nth j (alive nt ms) []).
+Proof. exact xwidth_count. Qed.
+
+(* ... and every exported module (searchable, depthwise, BatchNorm, excluded) and every sum is shape-consistent *)
+Theorem C09_export_shape_consistent : forall nt ms, wf nt = true -> sound_b nt ms = true ->
+  shape_ok true nt ms = true.
+Proof. exact export_shape_consistent_fixed. Qed.
+
+(* sharing: both operands of a sum (and the sum itself) are in one component; so is every node that passes
+   its features through (depthwise, BatchNorm, element-wise, flatten); layers of one component get one masker *)
+Theorem C09_join_same_component : forall nt i a b t, wf nt = true -> i < length nt ->
+  node_at nt i = NJoin a b t ->
+  nth a (labels nt) 0 = nth b (labels nt) 0 /\ nth i (labels nt) 0 = nth a (labels nt) 0.
+Proof. exact join_same_component. Qed.
+
+Theorem C09_through_same_component : forall nt i, wf nt = true -> i < length nt ->
+  is_cut (node_at nt i) = false -> (forall a b t, node_at nt i <> NJoin a b t) ->
+  nth i (labels nt) 0 = nth (src1 (node_at nt i)) (labels nt) 0.
+Proof. exact through_same_component. Qed.
+
+Theorem C09_shared_groups_equal_masks : forall fixd nt x y,
+  is_search_layer (node_at nt x) = true -> is_search_layer (node_at nt y) = true ->
+  x < length nt -> y < length nt ->
+  nth x (labels nt) 0 = nth y (labels nt) 0 -> masker_of fixd nt x = masker_of fixd nt y.
+Proof. exact shared_groups_equal_masks. Qed.
+
+(* --- the pinned upstream behaviour violates the statements (witness networks in Proofs/Calc.v) *)
+(* DESIGN §9 row 6: cat(x, excluded_conv(x)) -> searchable layer reports 10 input features instead of 8 *)
 Theorem C09_calc_sound_refuted :
   wf w_const = true /\ sound_b w_const m_const = true /\
   sfeat (register_all false w_const) m_const (input_calc false w_const 3) = 10 /\
   count (nth 2 (alive w_const m_const) []) = 8 /\ names_ok false w_const = false /\
   sfeat (register_all true w_const) m_const (input_calc true w_const 3) = 8 /\ names_ok true w_const = true.
 Proof. exact calc_sound_refuted. Qed.
+
+Theorem C09_flatten_names_refuted :
+  wf w_flat = true /\ sfeat (register_all false w_flat) m_flat (input_calc false w_flat 7) <> count (nth 6 (alive w_flat m_flat) []) /\
+  sfeat (register_all true w_flat) m_flat (input_calc true w_flat 7) = count (nth 6 (alive w_flat m_flat) []).
+Proof. exact flatten_names_refuted. Qed.
+
+Theorem C09_dup_cat_refuted :
+  wf w_dup = true /\ sound_b w_dup m_dup = true /\
+  length (smask (register_all false w_dup) m_dup (input_calc false w_dup 4)) = 5 /\
+  length (nth 3 (alive w_dup m_dup) []) = 7 /\
+  smask (register_all true w_dup) m_dup (input_calc true w_dup 4) = nth 3 (alive w_dup m_dup) [].
+Proof. exact dup_cat_refuted. Qed.
+
+(* DESIGN §9 row 7: add with a cat operand: masks the upstream sharing allows give a shape-inconsistent export *)
+Theorem C09_add_of_cat_refuted :
+  wf w_addcat = true /\ consistent_b false w_addcat m_addcat = true /\
+  sound_b w_addcat m_addcat = false /\ shape_ok false w_addcat m_addcat = false /\
+  consistent_b true w_addcat m_addcat = false /\
+  map (masker_of true w_addcat) [1; 2; 4] = [Some (1, true); Some (2, true); Some (4, true)].
+Proof. exact add_of_cat_refuted. Qed.
+
+Theorem C09_dw_after_cat_refuted :
+  wf w_dwcat = true /\ masker_of false w_dwcat 4 = None /\
+  map (masker_of true w_dwcat) [1; 2; 4] = [Some (1, true); Some (2, true); Some (4, true)].
+Proof. exact dw_after_cat_refuted. Qed.
+
+Theorem C09_excluded_downstream_refuted :
+  wf w_excl = true /\ consistent_b false w_excl m_excl = true /\ shape_ok false w_excl m_excl = false /\
+  masker_of true w_excl 1 = Some (1, true) /\ consistent_b true w_excl m_excl = false.
+Proof. exact excluded_downstream_refuted. Qed.
+
+(* non-vacuity: a network with a searchable/fixed cat, a residual sum, a depthwise layer, flatten x4 and a
+   pruning mask assignment satisfies every hypothesis, and the conclusions are non-trivial on it *)
+Definition ex_net : net :=
+  [NIn 3; NLayer 0 4 Full true; NProp 1 TPlain; NLayer 2 4 Full true; NJoin 2 3 false; NLayer 4 4 Dw true;
+   NLayer 0 2 Full false; NCat [5; 6; 0]; NBn 7 true; NLayer 8 3 Full true; NFlat 9 4 FFlatten; NLayer 10 2 Full true].
+Definition ex_ms := assoc [(1, [true; false; false; true]); (3, [true; false; false; true]); (5, [true; false; false; true]);
+                           (9, [false; true; true]); (11, [true; true])].
+Example C09_example :
+  wf ex_net = true /\ sound_b ex_net ex_ms = true /\ consistent_b true ex_net ex_ms = true /\
+  map (fun i => sfeat (register_all true ex_net) ex_ms (input_calc true ex_net i)) [1; 3; 5; 8; 9; 11] = [3; 2; 2; 7; 7; 8] /\
+  smask (register_all true ex_net) ex_ms (input_calc true ex_net 9) = [true; false; false; true; true; true; true; true; true] /\
+  map (masker_of true ex_net) [1; 3; 5; 9; 11] = [Some (1, false); Some (1, false); Some (1, false); Some (9, false); Some (11, true)] /\
+  shape_ok true ex_net ex_ms = true.
+Proof. vm_compute. repeat split. Qed.
+
+Print Assumptions C09_calc_sound.
+Print Assumptions C09_names_ok.
+Print Assumptions C09_calc_ideal_sound.
+Print Assumptions C09_in_features_export.
+Print Assumptions C09_exported_width_is_alive_count.
+Print Assumptions C09_export_shape_consistent.
+Print Assumptions C09_join_same_component.
+Print Assumptions C09_through_same_component.
+Print Assumptions C09_shared_groups_equal_masks.
 Print Assumptions C09_calc_sound_refuted.
+Print Assumptions C09_flatten_names_refuted.
+Print Assumptions C09_dup_cat_refuted.
+Print Assumptions C09_add_of_cat_refuted.
+Print Assumptions C09_dw_after_cat_refuted.
+Print Assumptions C09_excluded_downstream_refuted.
